@@ -46,4 +46,41 @@ theorem foldlM_all (ops : List (Nat × List Nat)) (e e' : Ev)
       rw [this.1, this.2, ha.1, ha.2]
       simp
 
+/-- distinct positions of a list of lists whose concatenation has no duplicates share no element -/
+theorem flatten_nodup_disjoint {α : Type} (L : List (List α)) (h : L.flatten.Nodup) (i j : Nat) (hi : i < L.length)
+    (hj : j < L.length) (hij : i < j) (x : α) (hx : x ∈ L[i]) : x ∉ L[j] := by
+  induction L generalizing i j with
+  | nil => simp at hi
+  | cons a L ih =>
+    rw [List.flatten_cons, List.nodup_append] at h
+    obtain ⟨_, hL, hdis⟩ := h
+    cases j with
+    | zero => omega
+    | succ j =>
+      cases i with
+      | zero =>
+        intro hx'
+        simp only [List.getElem_cons_zero] at hx
+        simp only [List.getElem_cons_succ] at hx'
+        have hjl : j < L.length := by simpa using hj
+        exact hdis x hx x (List.mem_flatten.mpr ⟨L[j], List.getElem_mem hjl, hx'⟩) rfl
+      | succ i =>
+        simp only [List.getElem_cons_succ] at hx ⊢
+        exact ih hL i j (by simpa using hi) (by simpa using hj) (by omega) hx
+
+/-- `findParentIdx` finds a list containing `ci` whenever there is one -/
+theorem findParentIdx_complete (ci : Nat) (ch : List (List Nat)) (k j : Nat) (hj : j < ch.length) (h : ci ∈ ch[j]) :
+    ∃ pi, findParentIdx ci ch k = some pi := by
+  induction ch generalizing k j with
+  | nil => simp at hj
+  | cons l rest ih =>
+    by_cases hc : ci ∈ l
+    · exact ⟨k, by simp [findParentIdx, hc]⟩
+    · cases j with
+      | zero => simp at h; exact absurd h hc
+      | succ j =>
+        simp only [List.getElem_cons_succ] at h
+        obtain ⟨pi, hpi⟩ := ih (k + 1) j (by simpa using hj) h
+        exact ⟨pi, by simp [findParentIdx, hc, hpi]⟩
+
 end PyrexD.Tree
